@@ -11,8 +11,8 @@ open TrashVerif Bytes
 theorem unquote_quote (s : Bytes) : unquote (quote s) = s := Proofs.C03.unquote_quote s
 
 /-- … and is never lossy on what trash-put writes. -/
-theorem unquote_quote_exact (s : Bytes) (h : validUtf8 s = true) (h0 : (0 : UInt8) ∉ s) :
-    unquoteLossy (quote s) = false := Proofs.C03.unquote_quote_exact s h h0
+theorem unquote_quote_exact (s : Bytes) (h0 : (0 : UInt8) ∉ s) :
+    unquoteLossy (quote s) = false := Proofs.C03.unquote_quote_exact s h0
 
 /-- The escaped value uses only unreserved characters, '/' and well-formed upper-case escapes:
     in particular no newline, CR, '=', space or '['. -/
